@@ -539,3 +539,170 @@ def gen_unknown(rng, known_numbers, n=None):
         else:  # a group holding one varint field
             out += enc_varint((1 << 3) | 0) + enc_varint(rng.getrandbits(10)) + enc_varint((num << 3) | 4)
     return bytes(out)
+
+
+# --------------------------------------------------------------------------------------
+# replayable forms: a schema as JSON (spec / from_spec), the raw state of an object as a JSON tree
+# (state_tree / rebuild), and a greedy shrinker over state trees
+# --------------------------------------------------------------------------------------
+def _elem_spec(e):
+    return None if e is None else [e.kind, e.pt, e.ref]
+
+
+def schema_spec(schema):
+    return {"enums": schema.enums,
+            "classes": [{"name": c.name, "ngroups": c.ngroups,
+                         "fields": [[f.name, f.number, f.card, _elem_spec(f.elem), _elem_spec(f.key), f.group] for f in c.fields]}
+                        for c in schema.classes]}
+
+
+def schema_from_spec(spec):
+    def el(x):
+        return None if x is None else Elem(x[0], x[1], x[2])
+    classes = [Cls(c["name"], [Field(n, num, card, el(e), key=el(k), group=g) for n, num, card, e, k, g in c["fields"]], c["ngroups"])
+               for c in spec["classes"]]
+    return Schema(classes, [[tuple(m) for m in en] for en in spec["enums"]])
+
+
+def state_tree(schema, v):
+    """JSON-able tree of the raw state (exact: floats as bit patterns, bytes as hex)"""
+    if v is bp.PLACEHOLDER:
+        return {"t": "ph"}
+    if v is None:
+        return {"t": "none"}
+    if isinstance(v, bool):
+        return {"t": "bool", "v": v}
+    if isinstance(v, bp.Enum):
+        return {"t": "enum", "e": schema.pyenums.index(type(v)), "v": int(v)}
+    if isinstance(v, int):
+        return {"t": "int", "v": int(v)}
+    if isinstance(v, float):
+        return {"t": "float", "v": f64_bits(v)}
+    if isinstance(v, str):
+        return {"t": "str", "v": v.encode("utf-8", "surrogatepass").hex()}
+    if isinstance(v, (bytes, bytearray)):
+        return {"t": "bytes", "v": bytes(v).hex()}
+    if isinstance(v, datetime):
+        return {"t": "dt", "v": us_of_datetime(v), "off": int(v.utcoffset().total_seconds() // 60)}
+    if isinstance(v, timedelta):
+        return {"t": "td", "v": us_of_timedelta(v)}
+    if isinstance(v, list):
+        return {"t": "list", "v": [state_tree(schema, x) for x in v]}
+    if isinstance(v, dict):
+        return {"t": "dict", "v": [[state_tree(schema, k), state_tree(schema, x)] for k, x in v.items()]}
+    if isinstance(v, bp.Message):
+        ci = schema.index_of[type(v)] - NBUILTIN
+        c = schema.classes[ci]
+        return {"t": "msg", "c": ci,
+                "raw": [state_tree(schema, object.__getattribute__(v, f.name)) for f in c.fields],
+                "sow": bool(object.__getattribute__(v, "_serialized_on_wire")),
+                "unk": bytes(object.__getattribute__(v, "_unknown_fields")).hex(),
+                "cur": dict(object.__getattribute__(v, "_group_current"))}
+    raise Unmodellable(type(v))
+
+
+def rebuild(schema, t):
+    """the real object / value with exactly that raw state"""
+    k = t["t"]
+    if k == "ph":
+        return bp.PLACEHOLDER
+    if k == "none":
+        return None
+    if k in ("bool", "int"):
+        return t["v"]
+    if k == "enum":
+        return schema.pyenums[t["e"]].try_value(t["v"])
+    if k == "float":
+        return struct.unpack("<d", struct.pack("<Q", t["v"]))[0]
+    if k == "str":
+        return bytes.fromhex(t["v"]).decode("utf-8", "surrogatepass")
+    if k == "bytes":
+        return bytes.fromhex(t["v"])
+    if k == "dt":
+        return (EPOCH + timedelta(microseconds=t["v"])).astimezone(timezone(timedelta(minutes=t.get("off", 0))))
+    if k == "td":
+        return timedelta(microseconds=t["v"])
+    if k == "list":
+        return [rebuild(schema, x) for x in t["v"]]
+    if k == "dict":
+        return {rebuild(schema, a): rebuild(schema, b) for a, b in t["v"]}
+    if k == "msg":
+        c = schema.classes[t["c"]]
+        m = c.py()
+        for f, r in zip(c.fields, t["raw"]):
+            object.__setattr__(m, f.name, rebuild(schema, r))
+        m.__dict__["_serialized_on_wire"] = t["sow"]
+        m.__dict__["_unknown_fields"] = bytes.fromhex(t["unk"])
+        m.__dict__["_group_current"] = dict(t["cur"])
+        return m
+    raise ValueError(k)
+
+
+def shrink_tree(schema, tree, still_fails, budget=200):
+    """greedy delta-debugging on a message state tree: reset attributes to PLACEHOLDER / None, shorten containers,
+    recurse into nested messages; keeps a candidate whenever still_fails(candidate) is true"""
+    import copy as _copy
+    calls = [0]
+
+    def ok(t):
+        calls[0] += 1
+        if calls[0] > budget:
+            return False
+        try:
+            return bool(still_fails(t))
+        except Exception:
+            return False
+
+    def cands(t, path=()):
+        # yields (description, mutator) pairs; mutator edits a deep copy in place
+        if t["t"] == "msg":
+            c = schema.classes[t["c"]]
+            for i, r in enumerate(t["raw"]):
+                if r["t"] not in ("ph", "none"):
+                    yield path + (("raw", i),), ({"t": "none"} if c.fields[i].card == "optional" else {"t": "ph"})
+                yield from cands(r, path + (("raw", i),))
+            if t["unk"]:
+                yield path + (("unk",),), ""
+        elif t["t"] == "list":
+            for i in range(len(t["v"])):
+                yield path + (("del", i),), None
+            for i, x in enumerate(t["v"]):
+                yield from cands(x, path + (("v", i),))
+        elif t["t"] == "dict":
+            for i in range(len(t["v"])):
+                yield path + (("del", i),), None
+            for i, (a, b) in enumerate(t["v"]):
+                yield from cands(b, path + (("v", i), ("kv", 1)))
+
+    def apply(t, path, new):
+        t = _copy.deepcopy(t)
+        cur = t
+        for step in path[:-1]:
+            if step[0] == "raw":
+                cur = cur["raw"][step[1]]
+            elif step[0] == "v":
+                cur = cur["v"][step[1]]
+            elif step[0] == "kv":
+                cur = cur[step[1]]
+        last = path[-1]
+        if last[0] == "raw":
+            cur["raw"][last[1]] = new
+        elif last[0] == "unk":
+            cur["unk"] = ""
+        elif last[0] == "del":
+            del cur["v"][last[1]]
+        return t
+
+    changed = True
+    while changed and calls[0] <= budget:
+        changed = False
+        for path, new in list(cands(tree)):
+            try:
+                cand = apply(tree, path, new)
+            except Exception:
+                continue
+            if ok(cand):
+                tree = cand
+                changed = True
+                break
+    return tree
